@@ -164,6 +164,8 @@ def maybe_mask(t):
                     break
                 acc |= a
             m = acc
+        elif k == z3.Z3_OP_MOD and z3.is_int_value(t.arg(1)) and t.arg(1).as_long() > 0:
+            m = (1 << (t.arg(1).as_long() - 1).bit_length()) - 1      # 0 <= t mod c < c  (SMT-LIB mod, positive divisor)
         elif k == z3.Z3_OP_MUL and t.num_args() == 2:
             for i in (0, 1):
                 c, x = t.arg(i), t.arg(1 - i)
